@@ -357,7 +357,12 @@ class TermEval:
         f = c.func
         fn = ast.unparse(f)
         if any(isinstance(a, ast.Starred) for a in c.args) or any(k.arg is None for k in c.keywords):
-            raise Unsupported("starred call %s" % fn)
+            # a call with * / ** arguments is an uninterpreted operator of all its argument terms
+            parts = [("op", "*", self.ev(a.value)) if isinstance(a, ast.Starred) else self.ev(a) for a in c.args]
+            parts += [("op", "**", self.ev(k.value)) if k.arg is None else ("op", "kw." + k.arg, self.ev(k.value))
+                      for k in sorted(c.keywords, key=lambda k: k.arg or "~")]
+            head = [self.ev(c.func.value)] if isinstance(c.func, ast.Attribute) and not (isinstance(c.func.value, ast.Name) and c.func.value.id == "torch") else []
+            return ("op", c.func.attr if isinstance(c.func, ast.Attribute) else fn) + tuple(head) + tuple(parts)
         # function form torch.f(x, ...) and method form x.f(...) are one operation
         is_torch = isinstance(f, ast.Attribute) and isinstance(f.value, ast.Name) and f.value.id == "torch"
         if is_torch:
